@@ -441,6 +441,29 @@ def P_option_some(b, op):
 # --------------------------------------------------------------------------------------------
 # INDEX-MOD
 
+def rule_panic_new(fx, col):
+    """PANIC-INV walks the instantiated call graph from the known API roots. A function added later is not under any root; whatever
+    can panic in it (expect / unwrap / panic! / assert / unreachable) is reported here, fail closed: C13 allows no new panic."""
+    g = P.graph(fx)
+    roots = P.root_groups(fx, ('default', 'fill', 'rwlock'), ('r', 'g', 'w', 'c', 'a', 'k', 'f', 's', 'x'))
+    seen, parent, _ = g.reach(list(roots.values()))
+    walked = {g.body_of[i].key for i in seen if g.body_of.get(i) is not None}
+    PAN = ('expect', 'unwrap', 'panic', 'panic_fmt', 'begin_panic', 'assert_failed', 'unreachable', 'panic_display', 'unwrap_failed', 'expect_failed', 'panic_explicit')
+    n = 0
+    for b in fx.lib.bodies:
+        if b.key in walked or '::tests' in b.fname:
+            continue
+        n += 1
+        for bb, t in b.calls(include_cleanup=False):
+            if U.callee_name(t) in PAN and t['callee'].get('krate') in ('core', 'std', 'alloc'):
+                col.fail('PANIC-NEW', '%s|%s' % (b.fname, U.callee_name(t)), 'panic-capable call in a function no API root reaches (a new operation?): nothing discharges it', b.loc(bb))
+        for bb in range(b.n):
+            t = b.term(bb)
+            if t['k'] == 'assert' and not b.is_cleanup(bb) and not (t.get('span') or {}).get('macros'):
+                pass  # compiler-inserted arithmetic / bounds checks in unreached helpers are not judged here
+    col.ok('PANIC-NEW', 'scan', 'functions outside the root walk scanned: %d' % n)
+
+
 def rule_writers_raii(fx, col):
     """The count of writers poking into a node is moved only by the reservation object: incremented where a NodeReservation is
     produced, decremented in its Drop. A hand-written `fetch_add .. call .. fetch_sub` around a call that can run user code
